@@ -63,7 +63,7 @@ def _patch_crosshair():
     return stats
 
 
-NO_PURE_IMPORTS = {"harness.C43", "harness.C30", "harness.C31", "harness.C32", "harness.C33", "harness.C34", "harness.C35gt", "harness.C20gt", "harness.C21gt", "harness.C23gt", "harness.C22gt"}
+NO_PURE_IMPORTS = {"harness.C43", "harness.C30", "harness.C31", "harness.C32", "harness.C33", "harness.C34", "harness.C35gt", "harness.C20gt", "harness.C21gt", "harness.C23gt", "harness.C22gt", "harness.C18gt"}
 
 
 def analyze(module: str, fn_name: str, inst: dict, timeout: float, per_path: float | None = None) -> dict:
